@@ -252,7 +252,8 @@ CLAIMS = {
         "(a malformed reply is never retried); r+1 timeouts give the last timeout-class error; the combinator has no crash of its own for "
         "any r (incl. usize::MAX, repaired in /repo). (2) END TO END on whole queries under any fault plan (Props/C10_<family>_whole.lean; "
         "Valve, The Ship, GameSpy 3 incl. query_vars and GameSpy 1 (all four also with replies that stop half way: any incomplete selection of the "
-        "fragments / packets / parts, in any order, before the silence or before a malformed datagram), FFOW, Quake 1/2/3, GameSpy 2, "
+        "fragments / packets / parts, in any order, before the silence or before a malformed datagram; GameSpy 3 over the whole decoding domain incl. extra "
+        "field sections and value lists cut at packet boundaries), FFOW, Quake 1/2/3, GameSpy 2, "
         "JC2M, Unreal 2, Mindustry (a socket per attempt), Minecraft Java / Bedrock / legacy): for every state of the SPEC's domain, every setting and "
         "retry count, and failed attempts (a silence or a failed send, at the first exchange of an attempt or after its challenge / handshake "
         "rounds) placed before the valid exchange of each unit: if every unit loses at most r attempts the query returns exactly the fault-free "
@@ -263,7 +264,7 @@ CLAIMS = {
         "fault, malformed, valid} up to length r+2, r in 0..3, at each unit and stage of every family with a fault builder, recovering vectors at two "
         "or three units of one query at once, attempts counted on the wire; for the families under (2) every injected script is rebuilt by the model "
         "driver from the SPEC's plan (identical line, theorem hypotheses evaluated, result and sent list compared with the SPEC's)."),
-  note=TB + "timeouts are scripted (silence); real socket timeouts belong to C12. Limits: the malformed datagram after some fragments of a Valve reply is of the shorter-than-5-bytes class; the GameSpy 3 theorem domain is replies without extra field sections. Recorded finding: The Ship reports an exhausted players / rules unit as PacketBad.",
+  note=TB + "timeouts are scripted (silence); real socket timeouts belong to C12. Limits: the malformed datagram after some fragments of a Valve reply is of the shorter-than-5-bytes class; The Ship has plan correspondence through `theshipplan`. Recorded finding: The Ship reports an exhausted players / rules unit as PacketBad.",
   technique="Lean 4 proof (induction on the retry count; exact-outcome logic Steps over queue, fault flags and sent list for whole queries) + fault-vector and plan differential"),
  "C11": dict(
   category="proof",
